@@ -264,6 +264,60 @@ FORBIDDEN_CALL = re.compile(r"::(overflowing_\w+|wrapping_\w+|saturating_\w+|unc
 ARITH_SCOPE = re.compile(r"(ops::(Add|Sub|Mul|Div|AddAssign|Rem)|^None$)")
 
 
+def _flag_tested_overflowing(f, cb):
+    """The call in block cb of f returns (value, overflowed) into a plain local; True when every later mention of that local is
+    either its flag `.1` as the discriminant of a switch, or its value `.0` in a block that the switch's flag == false edge
+    dominates.  Any other mention (the pair moved whole, the value read elsewhere, the flag copied around) -> False."""
+    body = f.body
+    t = body.blocks[cb]["term"]
+    dest = t.get("dest")
+    if not dest or dest.get("p"):
+        return False
+    loc = dest["l"]
+
+    def mentions(o, out):
+        if isinstance(o, list):
+            for x in o:
+                mentions(x, out)
+        elif isinstance(o, dict):
+            if "l" in o and "p" in o and o["l"] == loc:
+                out.append(o)
+            for k, v in o.items():
+                if k != "ty":
+                    mentions(v, out)
+    false_edges = []
+    value_blocks = []
+    for b, blk in enumerate(body.blocks):
+        if blk.get("cleanup"):
+            continue
+        for st in blk["stmts"]:
+            ms = []
+            mentions(st, ms)
+            for m in ms:
+                pr = m["p"]
+                if len(pr) >= 1 and pr[0].get("k") == "field" and pr[0].get("i") == 0:
+                    value_blocks.append(b)
+                else:
+                    return False
+        tm = blk["term"]
+        ms = []
+        mentions({k: v for k, v in tm.items() if not (b == cb and k == "dest")}, ms)
+        for m in ms:
+            pr = m["p"]
+            if tm["k"] == "switch" and tm["discr"].get("place") is m and len(pr) == 1 and pr[0].get("k") == "field" and pr[0].get("i") == 1:
+                zero = [x for v, x in tm["arms"] if str(v) == "0"]
+                if len(zero) != 1:
+                    return False
+                false_edges.append((b, zero[0]))
+            elif len(pr) >= 1 and pr[0].get("k") == "field" and pr[0].get("i") == 0:
+                value_blocks.append(b)
+            else:
+                return False
+    if len(false_edges) != 1:
+        return False
+    return all(body.edge_dominates(false_edges[0], vb) for vb in value_blocks)
+
+
 def run(ctx):
     P = ctx.P
     s = ctx.inst("C08.S", "summary conformance: every Uint256/Decimal256 operator body is a single rounding of the ideal result over aborting U256 primitives, with exactly the allowed aborts", floor=19)
@@ -327,6 +381,11 @@ def run(ctx):
                 continue
             g = generic_path(p)
             n_calls += 1
+            if FORBIDDEN_CALL.search(g) and re.search(r"U256::overflowing_(add|sub|mul)$", g) and _flag_tested_overflowing(f, b):
+                # `match a.overflowing_mul(b) { (v, false) => Some(..v..), (_, true) => None }`: the wrapped value is read only
+                # where the overflow flag is known to be false — a checked operation, not a wrapping one
+                r1.site("%s: %s with the overflow flag tested before the value is read" % (common.span_of_block_term(f, b), common.last_seg(g)))
+                continue
             if FORBIDDEN_CALL.search(g) and not g.endswith("usize::checked_sub"):
                 r1.fail("C08.R1:forbidden-call:%s:%s" % (f.path, common.last_seg(g)), f.path, common.span_of_block_term(f, b),
                         "call of %s: arithmetic that can wrap, saturate, truncate or bypass the aborting U256 operators" % g)
